@@ -1,3 +1,15 @@
 (* commands of the later lanes; extended as the model grows *)
+open Model
+open Sexp
 open Conv
-let handle (_ : Sexp.t) : string = raise (Bad "unknown command")
+
+(* powf is external (libm): the model leaves it abstract; lanes never compare its value *)
+let powf_stub (_ : z) (_ : z) : z = cANON_NAN
+
+let handle (s : Sexp.t) : string =
+  match s with
+  | L [A "op"; A name; a; b] ->
+      outcome_to_string false (op_exec powf_stub (binop_of_string name) (val_of_sexp a) (val_of_sexp b))
+  | L [A "unop"; A name; a] ->
+      outcome_to_string false (unop_exec (unop_of_string name) (val_of_sexp a))
+  | _ -> raise (Bad "unknown command")
